@@ -12,6 +12,11 @@ mutable state, so that a later operation on one object silently changes the trav
   assign_seed      tree.seed_node = nd with nd attached (to another tree or to the same tree)
   reparent   nd.parent_node = other   (the managed property: leaves the old parent's child list)
   new_child / remove_child / new_tree   ordinary edits and trees created later in the same process
+  refused    (wave 8) a call the API must REFUSE with a documented error, caught by the caller, who carries on:
+             p.remove_child(n) with n not a child of p (a child of another node / p itself / p's parent / a seed /
+             a node of another tree) -> ValueError; n.add_child(n), n.add_child(n's parent) -> AssertionError.
+             Clause: a refused operation changes nothing - every traversal of every live tree afterwards is what it
+             was, and no pointer (parent, child list, edge head / tail) of any node the harness ever created moved
 
 After the initial build and after EVERY step EVERY live tree is traversed again with every iterator kind
 of Tree and Node (random flags / filters / start nodes), each run under a step bound (a traversal that
@@ -113,11 +118,18 @@ def spec_apply(world, step):
         p["kids"].remove(n)
     elif op == "new_tree":
         world["trees"].append(copy.deepcopy(step[1]))
+    elif op == "refused":
+        pass                      # a refused operation changes nothing
     else:
         raise RuntimeError("unknown step " + op)
 
 
+REFUSED_ERR = {"remove_child": "ValueErr", "add_child": "AssertErr"}
+
+
 def step_class(step):
+    if step[0] == "refused":
+        return "refused-" + step[1]
     return {"kids": "child-list-edit", "tree_from_seed": "Tree(seed_node=attached)", "assign_seed": "seed_node=attached",
             "reparent": "parent_node=", "new_child": "new_child", "remove_child": "remove_child",
             "new_tree": "new-tree"}[step[0]]
@@ -140,7 +152,7 @@ def small_spec(rng, next_id, nleaves=None):
 def gen_steps(rng, world, nsteps, next_id, weights=None):
     """random steps; applies them to `world` (a scratch copy) while generating"""
     w = weights or {"kids": 5, "tree_from_seed": 3, "assign_seed": 2, "reparent": 1, "new_child": 2, "remove_child": 1,
-                    "new_tree": 1}
+                    "new_tree": 1, "refused": 3}
     steps = []
     ops = [k for k in w for _ in range(w[k])]
     tries = 0
@@ -195,6 +207,33 @@ def gen_steps(rng, world, nsteps, next_id, weights=None):
         elif op == "remove_child":
             if nonseed:
                 step = ["remove_child", rng.choice(nonseed)[1]["id"]]
+        elif op == "refused":
+            r = rng.random()
+            if r < 0.8:
+                sub = rng.choice(["other", "other", "other", "other", "self", "parent", "seed", "foreign"])
+                if sub in ("other", "foreign") and nonseed:
+                    # the argument: an internal node or the LAST child of its parent more often than not (those are the
+                    # nodes whose parent pointer the callback walk and the internal-node iterators consult)
+                    pick = [x for x in nonseed if x[1]["kids"] or x[2]["kids"][-1] is x[1]]
+                    ti, n, p = rng.choice(pick) if (pick and rng.random() < 0.7) else rng.choice(nonseed)
+                    recv = [x for x in allnodes if x[1] is not p and x[1] is not n and (x[0] == ti) == (sub == "other")]
+                    if recv:
+                        step = ["refused", "remove_child", rng.choice(recv)[1]["id"], n["id"]]
+                elif sub == "self":
+                    n = rng.choice(allnodes)[1]
+                    step = ["refused", "remove_child", n["id"], n["id"]]
+                elif sub == "parent" and nonseed:
+                    ti, n, p = rng.choice(nonseed)
+                    step = ["refused", "remove_child", n["id"], p["id"]]
+                elif sub == "seed":
+                    sd = rng.choice(world["trees"])
+                    step = ["refused", "remove_child", rng.choice(allnodes)[1]["id"], sd["id"]]
+            elif r < 0.9 or not nonseed:
+                n = rng.choice(allnodes)[1]
+                step = ["refused", "add_child", n["id"], n["id"]]
+            else:
+                ti, n, p = rng.choice(nonseed)
+                step = ["refused", "add_child", n["id"], p["id"]]
         elif op == "new_tree":
             if len(world["trees"]) < MAX_TREES:
                 t = small_spec(rng, next_id)
@@ -335,6 +374,23 @@ class Impl:
             nd.parent_node.remove_child(nd)
         elif op == "new_tree":
             self.trees.append(self.build(step[1]))
+        elif op == "refused":
+            a, b = self.nodes[step[2]], self.nodes[step[3]]
+            if step[1] == "remove_child":
+                a.remove_child(b)
+            else:
+                a.add_child(b)
+
+    def ptr_dump(self):
+        """the whole pointer structure: the seed of every live tree and, for every node the harness ever created (in a
+        live tree or not), parent pointer, child list, edge head and tail"""
+        nm = lambda x: None if x is None else getattr(x, "_dv_id", "?")
+        out = {"tree %d seed" % ti: nm(t._seed_node) for ti, t in enumerate(self.trees)}
+        for i, nd in self.nodes.items():
+            e = nd._edge
+            out["node %d" % i] = [nm(nd._parent_node), [nm(c) for c in nd._child_nodes[:500]],
+                                  nm(None if e is None else e._head_node), nm(None if e is None else e.tail_node)]
+        return out
 
     def pointer_problems(self, bound):
         """well-formedness of the pointer structure of all live trees, read off the objects"""
@@ -408,19 +464,34 @@ def observe_world(case, per_tree=None, early=False):
             impl.trees.append(impl.build(t))
         for si in range(len(case["steps"]) + 1):
             err = None
+            ptr_diff = None
             if si > 0:
                 step = case["steps"][si - 1]
+                p0 = impl.ptr_dump() if step[0] == "refused" else None
                 try:
                     with core.alarm(5):
                         impl.apply(step)
                 except Exception as e:
                     err = core.exc_enum(e)
+                if p0 is not None:
+                    p1 = impl.ptr_dump()
+                    fields = ("_parent_node", "_child_nodes", "edge.head_node", "edge.tail_node")
+                    ptr_diff = []
+                    for k in sorted(set(p0) | set(p1), key=str):
+                        if p0.get(k) != p1.get(k):
+                            if k.startswith("tree") or k not in p0 or k not in p1:
+                                ptr_diff.append("%s: %s -> %s" % (k, p0.get(k), p1.get(k)))
+                            else:
+                                ptr_diff.extend("%s %s: %s -> %s" % (k, f, u, v)
+                                                for f, u, v in zip(fields, p0[k], p1[k]) if u != v)
                 spec_apply(spec, step)
             max_id = case_max_id(case)
             total = len(impl.nodes)
             rec = {"err": err, "trees": [], "pointers": impl.pointer_problems(4 * total + 10),
                    "alias": impl.aliasing(4 * total + 10),
                    "held": [[getattr(x, "_dv_id", -1) for x in h[:200]] for h in impl.held]}
+            if ptr_diff is not None:
+                rec["ptr_diff"] = ptr_diff[:8]
             for ti, st in enumerate(spec["trees"]):
                 if ti >= len(impl.trees):
                     rec["trees"].append(None)
@@ -551,6 +622,8 @@ def describe(case, upto):
             return "node%d.new_child() -> node%d" % (s[1], s[2])
         if s[0] == "remove_child":
             return "remove_child(node%d)" % s[1]
+        if s[0] == "refused":
+            return "try: node%d.%s(node%d) except %s: pass" % (s[2], s[1], s[3], {"ValueErr": "ValueError", "AssertErr": "AssertionError"}[REFUSED_ERR[s[1]]])
         return "new tree %s" % trees.newick(b.label_ids(s[1]), with_len=False)
     return "trees %s; then %s" % (init, " | ".join(one(s) for s in case["steps"][:upto]) or "(nothing)")
 
@@ -565,7 +638,14 @@ def oracle_world(case, obs, per_tree=None, only_last=False):
         if only_last and si < len(obs["steps"]) - 1:
             continue
         where = "after [%s]" % describe(case, si)
-        if rec["err"] is not None:
+        refused = si > 0 and case["steps"][si - 1][0] == "refused"
+        if refused:
+            want = REFUSED_ERR[case["steps"][si - 1][1]]
+            if rec["err"] is None:
+                return ("%s: the last call returned instead of raising the documented %s" % (where, want), "not-refused@" + cls)
+            if rec["err"] != want:
+                return ("%s: the last call raised %s, documented is %s" % (where, rec["err"], want), "refused-with-other-error@" + cls)
+        elif rec["err"] is not None:
             return ("%s: the last step raised %s" % (where, rec["err"]), "step-raised@" + cls)
         max_id = case_max_id(case)
         # every live tree, every iterator: the defining order on the spec tree
@@ -581,6 +661,9 @@ def oracle_world(case, obs, per_tree=None, only_last=False):
         if rec["held"] != spec["held"]:
             return ("%s: the lists obtained from child_nodes() that the caller kept now contain %s, the caller put %s there"
                     % (where, rec["held"], spec["held"]), "held-child-list-changed@" + cls)
+        if refused and rec.get("ptr_diff"):
+            return ("%s: the refused call did not leave the objects as they were: %s" % (where, "; ".join(rec["ptr_diff"][:4])),
+                    "refused-op-changed-state@" + cls)
         if rec["pointers"]:
             return ("%s: pointer structure of the live trees: %s" % (where, "; ".join(rec["pointers"])),
                     "pointer-structure@" + cls)
@@ -611,6 +694,8 @@ def count_world(ctx, case):
         ctx.count("world-step:" + s[0])
         if s[0] == "kids":
             ctx.count("world-step:kids:" + ("assigned-back" if s[3] else "kept"))
+        if s[0] == "refused":
+            ctx.count("world-step:refused:" + s[1])
 
 
 # ---------------------------------------------------------------------------------------------
@@ -633,6 +718,8 @@ def c_edit(e):
 
 
 def c_step(s):
+    if s[0] == "refused":
+        return "(SRefused %s %s %s)" % ("RRemoveChild" if s[1] == "remove_child" else "RAddChild", cz(s[2]), cz(s[3]))
     if s[0] == "kids":
         return "(SKids %s %s %s)" % (cz(s[1]), clist([c_edit(e) for e in s[2]]), cbool(s[3]))
     if s[0] == "tree_from_seed":
